@@ -210,6 +210,7 @@ class KH:
         self.timeout = timeout
         self.role = role
         self.witness = witness
+        self.expect_covers = expect_covers  # minimum number of satisfied covers of the witness twin (default: all of them)
 
 
 def run_kani_group(prop_id, tier, target, modules, harnesses, support=(), elide_tracing=(),
@@ -304,7 +305,8 @@ def run_kani_group(prop_id, tier, target, modules, harnesses, support=(), elide_
                     ob.detail = "; ".join("%s @ %s" % (d, l.split("/")[-1]) for _, d, l in r.failed_checks[:4])
                     ob.cex = {"harness": h.name, "failed_checks": [{"description": d, "location": l} for _, d, l in r.failed_checks]}
             elif r.status == "success":
-                if h.witness and (w is None or w.status != "success" or w.cover_total == 0 or w.cover_satisfied < w.cover_total):
+                need = (lambda w_: h.expect_covers if getattr(h, "expect_covers", None) else w_.cover_total)
+                if h.witness and (w is None or w.status != "success" or w.cover_total == 0 or w.cover_satisfied < need(w)):
                     ob.detail = "vacuity witness not satisfied (%s)" % (("%d/%d covers, status %s" % (w.cover_satisfied, w.cover_total, w.status)) if w else "missing")
                 else:
                     ob.verdict = "holds"
